@@ -7,11 +7,11 @@ package appdrv
 
 import (
 	"bytes"
-	"os"
 	"crypto/ecdsa"
 	"encoding/base64"
 	"fmt"
 	"math/big"
+	"os"
 	"sort"
 	"strings"
 
@@ -88,9 +88,12 @@ type Genesis struct {
 	ForkEnabled bool     `json:"fork_enabled"`
 	ForkHeight  int64    `json:"fork_height"`
 	ForkNil     bool     `json:"fork_nil"` // genesis without forkHeights (migrated to all-disabled)
-	Validators  []KV     `json:"validators"`
-	ChainID     string   `json:"chain_id"`
-	DevMode     bool     `json:"dev_mode"`
+	// genesis written in the legacy format: only forkHeights.checkInUpdate = ForkHeight is set;
+	// InitChain (and every load) migrates it to "enabled at that height"
+	ForkLegacy bool   `json:"fork_legacy,omitempty"`
+	Validators []KV   `json:"validators"`
+	ChainID    string `json:"chain_id"`
+	DevMode    bool   `json:"dev_mode"`
 }
 
 type Call struct {
@@ -109,16 +112,16 @@ type History struct {
 // canonical responses
 
 type Ev struct {
-	T       string   `json:"t"`
-	Sender  []byte   `json:"sender,omitempty"`
-	Eon     uint64   `json:"eon,omitempty"`
-	Act     uint64   `json:"act,omitempty"`
-	Thr     uint64   `json:"thr,omitempty"`
-	Idx     uint64   `json:"idx,omitempty"`
-	Addrs   [][]byte `json:"addrs,omitempty"`
-	Blobs   [][]byte `json:"blobs,omitempty"`
-	Key     []byte   `json:"key,omitempty"`
-	Raw     string   `json:"raw,omitempty"` // set when the event could not be decoded
+	T      string   `json:"t"`
+	Sender []byte   `json:"sender,omitempty"`
+	Eon    uint64   `json:"eon,omitempty"`
+	Act    uint64   `json:"act,omitempty"`
+	Thr    uint64   `json:"thr,omitempty"`
+	Idx    uint64   `json:"idx,omitempty"`
+	Addrs  [][]byte `json:"addrs,omitempty"`
+	Blobs  [][]byte `json:"blobs,omitempty"`
+	Key    []byte   `json:"key,omitempty"`
+	Raw    string   `json:"raw,omitempty"` // set when the event could not be decoded
 }
 
 type Resp struct {
@@ -140,7 +143,10 @@ func NewApp(g Genesis) (*app.ShutterApp, error) {
 		keypers = append(keypers, common.BytesToAddress(k))
 	}
 	var fh *app.ForkHeights
-	if !g.ForkNil {
+	if g.ForkLegacy {
+		h := g.ForkHeight
+		fh = &app.ForkHeights{CheckInUpdate: &h}
+	} else if !g.ForkNil {
 		fh = &app.ForkHeights{CheckInUpdateNew: app.ForkHeight{Enabled: g.ForkEnabled, Height: g.ForkHeight}}
 	}
 	gs := app.NewGenesisAppState(keypers, int(g.Threshold), g.InitialEon, fh)
@@ -384,7 +390,9 @@ func kvsCoq(l []KV) string {
 
 func GenesisCoq(g Genesis) string {
 	fe, fhh := g.ForkEnabled, g.ForkHeight
-	if g.ForkNil {
+	if g.ForkLegacy {
+		fe = true
+	} else if g.ForkNil {
 		fe, fhh = false, 0
 	}
 	return vh.CApp("mkGenesis", vh.CBytesList(g.Keypers), vh.CN(g.Threshold), vh.CN(g.InitialEon), vh.CBool(fe),
@@ -666,7 +674,10 @@ func NewAppAt(g Genesis, gobpath string) (*app.ShutterApp, error) {
 		keypers = append(keypers, common.BytesToAddress(k))
 	}
 	var fh *app.ForkHeights
-	if !g.ForkNil {
+	if g.ForkLegacy {
+		h := g.ForkHeight
+		fh = &app.ForkHeights{CheckInUpdate: &h}
+	} else if !g.ForkNil {
 		fh = &app.ForkHeights{CheckInUpdateNew: app.ForkHeight{Enabled: g.ForkEnabled, Height: g.ForkHeight}}
 	}
 	gs := app.NewGenesisAppState(keypers, int(g.Threshold), g.InitialEon, fh)
